@@ -330,12 +330,15 @@ lys_compile_iffeature(const struct ly_ctx *ctx, const struct lysp_qname *qname, 
         if (c[i] == '(') {
             j++;
             checkversion = 1;
+            /* nots separated by a parenthesis are not eliminated (by the second pass either) */
+            last_not = 0;
             continue;
         } else if (c[i] == ')') {
             if (--j < 0) {
                 /* closing parenthesis without an opening one, the final counts could still match */
                 break;
             }
+            last_not = 0;
             continue;
         } else if (isspace(c[i])) {
             checkversion = 1;
